@@ -801,6 +801,17 @@ Section Refine.
     now apply Forall2_set_nth.
   Qed.
 
+  Lemma with_fd_same st fd o : nth_error (st_fds st) fd = Some o -> with_fd st fd o = st.
+  Proof. intros H. unfold with_fd. rewrite set_nth_same by auto. now destruct st. Qed.
+
+  (* the handle changes in a way the specification's description does not see *)
+  Lemma Rel_set_handle s vs hs st fd f o :
+    Rel' s vs hs st -> nth_error (st_fds st) fd = Some o -> rel_fd (length (st_inodes st)) f o ->
+    Rel' s vs (set_nth_ hs fd f) st.
+  Proof.
+    intros HR Ho Hrel. rewrite <- (with_fd_same st fd Ho). now apply Rel_set_fd.
+  Qed.
+
   Lemma Rel_same_fd s vs hs st fd f :
     Rel' s vs hs st -> nth_error hs fd = Some f -> Rel' s vs (set_nth_ hs fd f) st.
   Proof. intros HR Hf. now rewrite set_nth__same. Qed.
@@ -822,3 +833,499 @@ Section Refine.
     Rel' s vs hs st -> nth_error (st_fds st) fd = None -> nth_error hs fd = None.
   Proof. intros [Hv Hi Hj Hn Hf] Ho. eapply Forall2_nth_none; eauto. Qed.
 End Refine.
+
+(* ---- the domain of the refinement theorem ------------------------------------------------- *)
+(* handle operations on any descriptor; Open and path-level Truncate of names that exist.  Creation and
+   removal of names (Open of a missing name, Rename, Link, Remove) belong to the namespace (C01). *)
+Definition in_scope (st : fstate) (op : fop) : bool :=
+  match op with
+  | Open name flag perm =>
+      match lookup_name st name, access_of flag with
+      | Some _, Some _ => N.ltb flag 4096
+      | _, _ => false
+      end
+  | PTruncate name size => match lookup_name st name with Some _ => true | None => false end
+  | Fchmod _ perm => N.ltb perm 512
+  | PRename _ _ | PLink _ _ | PRemove _ | PReadFile _ | PStat _ => false
+  | _ => true
+  end.
+
+Lemma on_fd_closed st fd o k :
+  nth_error (st_fds st) fd = Some o -> o_closed o = true -> on_fd st fd k = (st, S_Err X_Closed).
+Proof. intros H1 H2. unfold on_fd. now rewrite H1, H2. Qed.
+
+Lemma on_fd_open st fd o ino k :
+  nth_error (st_fds st) fd = Some o -> o_closed o = false -> nth_error (st_inodes st) (o_ino o) = Some ino ->
+  on_fd st fd k = k o ino.
+Proof. intros H1 H2 H3. unfold on_fd. now rewrite H1, H2, H3. Qed.
+
+Lemma on_fd_none st fd k : nth_error (st_fds st) fd = None -> on_fd st fd k = (st, S_BadIndex).
+Proof. intros H. unfold on_fd. now rewrite H. Qed.
+
+Lemma good_view_win v : good_view v -> win v = false.
+Proof. intros [_ H]. unfold win. now rewrite H. Qed.
+
+Lemma fd_get_some st fd o ino :
+  nth_error (st_fds st) fd = Some o -> nth_error (st_inodes st) (o_ino o) = Some ino -> fd_get st fd = Some (o, ino).
+Proof. intros H1 H2. unfold fd_get. now rewrite H1, H2. Qed.
+
+Unset Implicit Arguments.
+
+Section StepRefine.
+  Variable ptr : nat -> nat.
+  Variables (w : world) (st : fstate).
+  Hypothesis HR : Rel ptr w st.
+
+  Definition step_ok (op : fop) : Prop :=
+    fproj_res (snd (wstep w (impl_call op))) = snd (fspec_step st op)
+    /\ Rel ptr (fst (wstep w (impl_call op))) (fst (fspec_step st op)).
+
+  (* a descriptor number never returned: both sides answer "bad index" *)
+  Lemma no_fd_handle fd k : nth_error (st_fds st) fd = None -> on_handle w fd k = (w, RBadIndex).
+  Proof.
+    intros H. unfold on_handle.
+    assert (Hn : nth_error (w_handles w) fd = None) by (eapply Rel_no_fd; [exact HR|exact H]).
+    now rewrite Hn.
+  Qed.
+
+  (* the implementation side of an existing descriptor *)
+  Lemma some_fd_handle fd o :
+    nth_error (st_fds st) fd = Some o ->
+    exists f v, nth_error (w_handles w) fd = Some f /\ good_view v
+                /\ rel_fd ptr (length (st_inodes st)) f o
+                /\ forall k, on_handle w fd k = k f v.
+  Proof.
+    intros H. destruct (Rel_get_fd fd HR H) as (f & v & Hf & Hv & Hg & Hrel).
+    exists f, v. split; [exact Hf|]. split; [exact Hg|]. split; [exact Hrel|].
+    intros k. unfold on_handle. now rewrite Hf, Hv.
+  Qed.
+
+  Lemma open_inode o :
+    (o_ino o < length (st_inodes st))%nat ->
+    exists ino id, nth_error (st_inodes st) (o_ino o) = Some ino /\ (i_perm ino < 512)%N
+      /\ get (f_heap (w_fs w)) (ptr (o_ino o)) = Some (NFile (i_bytes ino) (i_nlink ino) id (meta_of ino)).
+  Proof.
+    intros Hlt. destruct (nth_error (st_inodes st) (o_ino o)) as [ino|] eqn:E.
+    - destruct (R_inodes HR _ E) as [Hp [id Hg]]. eauto.
+    - apply nth_error_None in E. lia.
+  Qed.
+
+  Ltac closed_case f v Hrel Hg :=
+    let Hname := fresh "Hname" in let Hnode := fresh "Hnode" in
+    destruct Hrel as (_ & Hname & Hnode & _);
+    pose proof (closed_handle (w_fs w) f Hname Hnode (good_view_win Hg)) as HC.
+
+  Lemma Rel_same_handle fd f : nth_error (w_handles w) fd = Some f -> Rel ptr (with_handle w fd f) st.
+  Proof. intros H. unfold Rel. cbn [with_handle w_fs w_views w_handles]. now apply Rel_same_fd. Qed.
+
+  Lemma step_read fd n : kf02 st (Read fd n) = None -> step_ok (Read fd n).
+  Proof.
+    intros Hkf. unfold step_ok. cbn [impl_call wstep fspec_step].
+    destruct (nth_error (st_fds st) fd) as [o|] eqn:Efd.
+    2:{ rewrite no_fd_handle, on_fd_none by auto. cbn. auto. }
+    destruct (some_fd_handle fd o Efd) as (f & v & Hf & Hg & Hrel & Hon). rewrite Hon.
+    destruct (o_closed o) eqn:Ecl.
+    - (* closed *)
+      erewrite on_fd_closed by eassumption.
+      destruct Hrel as (_ & Hname & Hnode & _). rewrite Ecl in Hnode.
+      destruct (closed_handle (w_fs w) v f Hname Hnode (good_view_win Hg)) as (C & _). rewrite C.
+      cbn. split; auto. now apply Rel_same_handle.
+    - destruct Hrel as (Hview & Hname & Hnode & Hlt & Hat & Hr & Hw & Ha). rewrite Ecl in Hnode.
+      destruct (open_inode o Hlt) as (ino & id & Eino & Hperm & Hget).
+      erewrite on_fd_open by eassumption.
+      unfold kf02 in Hkf. erewrite fd_get_some in Hkf by eassumption. rewrite Ecl in Hkf. cbn [negb andb] in Hkf.
+      destruct (Z.leb n 0) eqn:En; [discriminate|].
+      unfold f_read. destruct (hd_name f) eqn:Enm; [congruence|]. rewrite Hnode.
+      unfold file_of. rewrite Hget, Hr.
+      destruct (can_read (o_acc o)) eqn:Ecr; cbn [negb].
+      2:{ cbn. split; auto. now apply Rel_same_handle. }
+      rewrite Hat. unfold get_bytes.
+      destruct (firstn (Z.to_nat n) (skipn (Z.to_nat (o_off o)) (i_bytes ino))) as [|b0 got] eqn:Egot.
+      + cbn [length Z.of_nat Z.eqb fst snd fproj_res option_map fproj_err]. split; auto.
+        unfold Rel. cbn [with_handle w_fs w_views w_handles].
+        rewrite Z.add_0_r.
+        apply Rel_set_handle with (o := o); auto.
+        unfold rel_fd. cbn [hd_view hd_name hd_node hd_at hd_mode]. rewrite Ecl. repeat split; auto; congruence.
+      + set (k := Z.of_nat (length (b0 :: got))).
+        assert (Hk : Z.eqb k 0 = false) by (apply Z.eqb_neq; unfold k; cbn [length]; lia).
+        rewrite Hk. cbn [fst snd fproj_res option_map]. split; [reflexivity|].
+        unfold Rel. cbn [with_handle w_fs w_views w_handles with_fd].
+        apply Rel_set_fd; auto.
+        unfold rel_fd, set_off. cbn [hd_view hd_name hd_node hd_at hd_mode o_ino o_off o_acc o_app o_closed].
+        rewrite Ecl. repeat split; auto; congruence.
+  Qed.
+
+  Lemma Rel_w : Rel ptr w st. Proof. exact HR. Qed.
+
+  Ltac fd_cases fd o Efd f v Hf Hg Hrel Hon :=
+    destruct (nth_error (st_fds st) fd) as [o|] eqn:Efd;
+    [ destruct (some_fd_handle fd o Efd) as (f & v & Hf & Hg & Hrel & Hon); rewrite Hon | ].
+
+  Ltac use_kf Hkf Efd Eino :=
+    unfold kf02 in Hkf; erewrite fd_get_some in Hkf by eassumption.
+
+  Lemma put_bytes_nil d pos : (pos <= length d)%nat -> put_bytes d pos [] = d.
+  Proof.
+    intros H. unfold put_bytes. replace (pos - length d)%nat with 0%nat by lia.
+    cbn [zeros repeat app length]. rewrite Nat.add_0_r. apply firstn_skipn.
+  Qed.
+
+  Lemma readat_state fd n off : fst (fspec_step st (ReadAt fd n off)) = st.
+  Proof.
+    cbn [fspec_step]. destruct (Z.ltb off 0); [destruct (nth_error _ _); reflexivity|].
+    destruct (Z.leb n 0); [destruct (nth_error _ _); reflexivity|].
+    unfold on_fd. destruct (nth_error (st_fds st) fd) as [o|]; [|reflexivity].
+    destruct (o_closed o); [reflexivity|]. destruct (nth_error _ _); [|reflexivity].
+    destruct (negb _); reflexivity.
+  Qed.
+
+  Lemma step_read_at fd n off : kf02 st (ReadAt fd n off) = None -> step_ok (ReadAt fd n off).
+  Proof.
+    intros Hkf. unfold step_ok. rewrite readat_state. cbn [impl_call wstep fspec_step].
+    fd_cases fd o Efd f v Hf Hg Hrel Hon.
+    2:{ rewrite no_fd_handle by auto. destruct (Z.ltb off 0), (Z.leb n 0); rewrite ?on_fd_none by auto; cbn; auto. }
+    cbn [fst snd]. split; [|exact HR].
+    destruct Hrel as (Hview & Hname & Hnode & Hlt & Hat & Hr & Hw & Ha).
+    destruct (open_inode o Hlt) as (ino & id & Eino & Hperm & Hget).
+    use_kf Hkf Efd Eino.
+    destruct (o_closed o) eqn:Ecl.
+    - destruct (closed_handle (w_fs w) v f Hname Hnode (good_view_win Hg)) as (_ & C & _). rewrite C.
+      destruct (Z.ltb off 0); [discriminate|]. destruct (Z.leb n 0); [discriminate|].
+      erewrite on_fd_closed by eassumption. reflexivity.
+    - unfold f_read_at. destruct (hd_name f) eqn:Enm; [congruence|]. rewrite Hnode.
+      unfold file_of. rewrite Hget, Hr.
+      destruct (Z.ltb_spec off 0) as [Hoff|Hoff]; [reflexivity|].
+      destruct (Z.leb_spec n 0) as [Hn|Hn].
+      + destruct (can_read (o_acc o)); cbn [negb orb] in *; [|discriminate].
+        destruct (Z.ltb_spec (zlen (i_bytes ino)) off) as [Hb|Hb]; [discriminate|].
+        unfold zlen in Hb. destruct (Z.ltb_spec (Z.of_nat (length (i_bytes ino))) off); [lia|].
+        replace (Z.to_nat n) with 0%nat by lia. cbn [firstn length Z.of_nat].
+        destruct (Z.ltb_spec 0 n); [lia|]. reflexivity.
+      + erewrite on_fd_open by eassumption.
+        destruct (can_read (o_acc o)); cbn [negb]; [|reflexivity].
+        unfold get_bytes, zlen.
+        destruct (Z.ltb_spec (Z.of_nat (length (i_bytes ino))) off) as [Hb|Hb].
+        * rewrite skipn_all2 by lia. rewrite firstn_nil. cbn [length Z.of_nat].
+          destruct (Z.ltb_spec 0 n); [reflexivity|lia].
+        * destruct (Z.ltb _ n); reflexivity.
+  Qed.
+
+  Lemma step_write fd b : kf02 st (Write fd b) = None -> step_ok (Write fd b).
+  Proof.
+    intros Hkf. unfold step_ok. cbn [impl_call wstep fspec_step].
+    fd_cases fd o Efd f v Hf Hg Hrel Hon.
+    2:{ rewrite no_fd_handle, on_fd_none by auto. cbn. auto. }
+    destruct Hrel as (Hview & Hname & Hnode & Hlt & Hat & Hr & Hw & Ha).
+    destruct (open_inode o Hlt) as (ino & id & Eino & Hperm & Hget).
+    use_kf Hkf Efd Eino.
+    destruct (o_closed o) eqn:Ecl.
+    - destruct (closed_handle (w_fs w) v f Hname Hnode (good_view_win Hg)) as (_ & _ & C & _). rewrite C.
+      erewrite on_fd_closed by eassumption. cbn. split; auto.
+      unfold Rel. cbn [with_handle with_fs w_fs w_views w_handles]. now apply Rel_same_fd.
+    - erewrite on_fd_open by eassumption.
+      destruct (can_write (o_acc o)) eqn:Ecw; cbn [negb].
+      + erewrite f_write_ok by eassumption.
+        rewrite Ha, Hat. cbn [fst snd fproj_res].
+        set (pos := if o_app o then zlen (i_bytes ino) else o_off o).
+        destruct b as [|b0 b'].
+        * cbn [negb andb] in Hkf.
+          assert (Hpos : (Z.to_nat pos <= length (i_bytes ino))%nat /\ pos = o_off o).
+          { unfold pos, zlen in *. destruct (o_app o).
+            - destruct (Z.eqb_spec (o_off o) (Z.of_nat (length (i_bytes ino)))); cbn [negb] in Hkf; [|discriminate]. lia.
+            - destruct (Z.ltb_spec (Z.of_nat (length (i_bytes ino))) (o_off o)); [discriminate|]. lia. }
+          destruct Hpos as [Hp1 Hp2]. rewrite put_bytes_nil by auto. split; [reflexivity|].
+          unfold Rel. cbn [with_handle with_fs w_fs w_views w_handles zlen length Z.of_nat].
+          rewrite Z.add_0_r, Hp2.
+          apply Rel_set_handle with (o := o); auto.
+          -- apply Rel_touch; auto.
+          -- unfold rel_fd, set_at. cbn [hd_view hd_name hd_node hd_at hd_mode]. rewrite Ecl. repeat split; cbn [fst snd]; auto; congruence.
+        * split; [reflexivity|].
+          unfold Rel. cbn [with_handle with_fs w_fs w_views w_handles].
+          apply Rel_set_fd.
+          -- apply Rel_upd_inode with (ino := ino)
+                   (ino' := set_bytes ino (put_bytes (i_bytes ino) (Z.to_nat pos) (b0 :: b'))); assumption.
+          -- cbn [with_inode st_inodes]. rewrite set_nth_length.
+             unfold rel_fd, set_at, set_off. cbn [hd_view hd_name hd_node hd_at hd_mode o_ino o_off o_acc o_app o_closed].
+             rewrite Ecl. repeat split; cbn [fst snd]; auto; congruence.
+      + unfold f_write. destruct (hd_name f) eqn:Enm; [congruence|]. rewrite Hnode.
+        unfold file_of. rewrite Hget, Hw. cbn [negb fst snd fproj_res fproj_err]. rewrite (good_view_win Hg).
+        split; [reflexivity|].
+        unfold Rel. cbn [with_handle with_fs w_fs w_views w_handles]. now apply Rel_same_fd.
+  Qed.
+
+  Lemma step_write_string fd b : kf02 st (WriteString fd b) = None -> step_ok (WriteString fd b).
+  Proof. exact (step_write fd b). Qed.
+
+  Ltac same_world := unfold Rel; cbn [with_handle with_fs w_fs w_views w_handles]; try (now apply Rel_same_fd); try exact HR.
+
+  Lemma step_write_at fd b off : kf02 st (WriteAt fd b off) = None -> step_ok (WriteAt fd b off).
+  Proof.
+    intros Hkf. unfold step_ok. cbn [impl_call wstep fspec_step].
+    fd_cases fd o Efd f v Hf Hg Hrel Hon.
+    2:{ rewrite no_fd_handle by auto. cbn. auto. }
+    destruct Hrel as (Hview & Hname & Hnode & Hlt & Hat & Hr & Hw & Ha).
+    destruct (open_inode o Hlt) as (ino & id & Eino & Hperm & Hget).
+    use_kf Hkf Efd Eino.
+    destruct (o_app o) eqn:Eapp; [discriminate|].
+    unfold lift.
+    destruct (Z.ltb_spec off 0) as [Hoff|Hoff].
+    { unfold f_write_at. destruct (Z.ltb_spec off 0); [|lia]. cbn. split; auto; same_world. }
+    destruct (o_closed o) eqn:Ecl.
+    - destruct (closed_handle (w_fs w) v f Hname Hnode (good_view_win Hg)) as (_ & _ & _ & C & _). rewrite C.
+      destruct (Z.ltb_spec off 0); [lia|].
+      destruct b as [|b0 b']; [discriminate|].
+      erewrite on_fd_closed by eassumption. cbn. split; auto; same_world.
+    - destruct (can_write (o_acc o)) eqn:Ecw.
+      + erewrite f_write_at_ok by eassumption. cbn [fst snd fproj_res].
+        destruct b as [|b0 b'].
+        * cbn [negb orb] in Hkf. destruct (Z.ltb_spec (zlen (i_bytes ino)) off) as [Hb|Hb]; [discriminate|].
+          unfold zlen in Hb. rewrite put_bytes_nil by lia. split; [reflexivity|].
+          unfold Rel. cbn [with_fs w_fs w_views w_handles]. apply Rel_touch; auto.
+        * erewrite on_fd_open by eassumption. rewrite Ecw. cbn [negb fst snd]. split; [reflexivity|].
+          unfold Rel. cbn [with_fs w_fs w_views w_handles].
+          apply Rel_upd_inode with (ino := ino)
+            (ino' := set_bytes ino (put_bytes (i_bytes ino) (Z.to_nat off) (b0 :: b'))); assumption.
+      + unfold f_write_at. destruct (Z.ltb_spec off 0); [lia|].
+        destruct (hd_name f) eqn:Enm; [congruence|]. rewrite Hnode.
+        unfold file_of. rewrite Hget, Hw. cbn [negb fst snd fproj_res fproj_err]. rewrite (good_view_win Hg).
+        destruct b as [|b0 b']; [cbn [negb orb] in Hkf; discriminate|].
+        erewrite on_fd_open by eassumption. rewrite Ecw. cbn. split; auto; same_world.
+  Qed.
+
+  (* common prologue of the operations that go through on_fd on the specification side *)
+  Ltac prologue fd Hkf o Efd f v Hf Hg Hon Hview Hname Hnode Hlt Hat Hr Hw Ha ino idn Eino Hperm Hget :=
+    let Hrel := fresh "Hrel" in
+    unfold step_ok; cbn [impl_call wstep fspec_step];
+    fd_cases fd o Efd f v Hf Hg Hrel Hon;
+    [ destruct Hrel as (Hview & Hname & Hnode & Hlt & Hat & Hr & Hw & Ha);
+      destruct (open_inode o Hlt) as (ino & idn & Eino & Hperm & Hget)
+    | rewrite no_fd_handle, on_fd_none by auto; cbn; auto ].
+
+  Lemma step_seek fd off wh : step_ok (Seek fd off wh).
+  Proof.
+    prologue fd Hkf o Efd f v Hf Hg Hon Hview Hname Hnode Hlt Hat Hr Hw Ha ino idn Eino Hperm Hget.
+    destruct (o_closed o) eqn:Ecl.
+    - destruct (closed_handle (w_fs w) v f Hname Hnode (good_view_win Hg)) as (_ & _ & _ & _ & C & _). rewrite C.
+      erewrite on_fd_closed by eassumption. cbn. split; auto; same_world.
+    - erewrite on_fd_open by eassumption.
+      unfold f_seek. destruct (hd_name f) eqn:Enm; [congruence|]. rewrite Hnode.
+      unfold file_of. rewrite Hget, Hat. rewrite (good_view_win Hg). unfold zlen.
+      destruct (if Z.eqb wh 0 then Some off else if Z.eqb wh 1 then Some (o_off o + off)
+                else if Z.eqb wh 2 then Some (Z.of_nat (length (i_bytes ino)) + off) else None) as [t|].
+      + destruct (Z.ltb t 0).
+        * cbn. split; auto; same_world.
+        * cbn [fst snd fproj_res]. split; [reflexivity|].
+          unfold Rel. cbn [with_handle w_fs w_views w_handles]. apply Rel_set_fd; [exact HR|].
+          unfold rel_fd, set_at, set_off. cbn [hd_view hd_name hd_node hd_at hd_mode o_ino o_off o_acc o_app o_closed].
+          rewrite Ecl. repeat split; auto; congruence.
+      + cbn. split; auto; same_world.
+  Qed.
+
+  Lemma step_ftruncate fd size : kf02 st (Ftruncate fd size) = None -> step_ok (Ftruncate fd size).
+  Proof.
+    intros Hkf.
+    prologue fd Hkf o Efd f v Hf Hg Hon Hview Hname Hnode Hlt Hat Hr Hw Ha ino idn Eino Hperm Hget.
+    use_kf Hkf Efd Eino. unfold lift.
+    destruct (o_closed o) eqn:Ecl.
+    - destruct (closed_handle (w_fs w) v f Hname Hnode (good_view_win Hg)) as (_ & _ & _ & _ & _ & C & _). rewrite C.
+      cbn [andb] in Hkf. destruct (Z.ltb size 0); [discriminate|].
+      erewrite on_fd_closed by eassumption. cbn. split; auto; same_world.
+    - erewrite on_fd_open by eassumption.
+      unfold f_truncate. destruct (hd_name f) eqn:Enm; [congruence|]. rewrite Hnode.
+      unfold file_of. rewrite Hget, Hw. rewrite (good_view_win Hg).
+      destruct (Z.ltb_spec size 0) as [Hs|Hs]; cbn [orb].
+      + cbn. split; auto; same_world.
+      + destruct (can_write (o_acc o)); cbn [negb].
+        * cbn [fst snd fproj_res]. split; [reflexivity|].
+          rewrite truncate_data_resize by lia.
+          unfold Rel. cbn [with_fs w_fs w_views w_handles].
+          apply Rel_upd_inode with (ino := ino) (ino' := set_bytes ino (resize (i_bytes ino) (Z.to_nat size))); assumption.
+        * cbn. split; auto; same_world.
+  Qed.
+
+  Lemma step_fstat fd : step_ok (Fstat fd).
+  Proof.
+    prologue fd Hkf o Efd f v Hf Hg Hon Hview Hname Hnode Hlt Hat Hr Hw Ha ino idn Eino Hperm Hget.
+    cbn [fst snd]. destruct (o_closed o) eqn:Ecl.
+    - destruct (closed_handle (w_fs w) v f Hname Hnode (good_view_win Hg)) as (_ & _ & _ & _ & _ & _ & C & _). rewrite C.
+      erewrite on_fd_closed by eassumption. cbn. split; auto; same_world.
+    - erewrite on_fd_open by eassumption.
+      unfold f_stat. destruct (hd_name f) eqn:Enm; [congruence|]. rewrite Hnode, Hget.
+      cbn. split; auto; same_world.
+  Qed.
+
+  Lemma step_fsync fd : step_ok (Fsync fd).
+  Proof.
+    prologue fd Hkf o Efd f v Hf Hg Hon Hview Hname Hnode Hlt Hat Hr Hw Ha ino idn Eino Hperm Hget.
+    cbn [fst snd]. destruct (o_closed o) eqn:Ecl.
+    - destruct (closed_handle (w_fs w) v f Hname Hnode (good_view_win Hg)) as (_ & _ & _ & _ & _ & _ & _ & C & _). rewrite C.
+      erewrite on_fd_closed by eassumption. cbn. split; auto; same_world.
+    - erewrite on_fd_open by eassumption.
+      unfold f_sync. destruct (hd_name f) eqn:Enm; [congruence|]. rewrite Hnode.
+      cbn. split; auto; same_world.
+  Qed.
+
+  Lemma step_fchmod fd perm : (perm < 512)%N -> step_ok (Fchmod fd perm).
+  Proof.
+    intros Hp.
+    prologue fd Hkf o Efd f v Hf Hg Hon Hview Hname Hnode Hlt Hat Hr Hw Ha ino idn Eino Hperm Hget.
+    unfold lift. destruct (o_closed o) eqn:Ecl.
+    - destruct (closed_handle (w_fs w) v f Hname Hnode (good_view_win Hg)) as (_ & _ & _ & _ & _ & _ & _ & _ & C & _). rewrite C.
+      erewrite on_fd_closed by eassumption. cbn. split; auto; same_world.
+    - erewrite on_fd_open by eassumption.
+      unfold f_chmod. destruct (hd_name f) eqn:Enm; [congruence|]. rewrite Hnode, Hget.
+      destruct Hg as [Hadm Hos]. unfold set_mode_ok. rewrite Hadm, orb_true_r.
+      cbn [fst snd fproj_res set_meta node_meta]. split; [reflexivity|].
+      destruct (perm_small Hp) as (P1 & P2 & _). destruct (perm_small Hperm) as (_ & _ & P3).
+      unfold with_mode, meta_of at 1 2 3. cbn [m_mode m_uid m_gid]. rewrite P1, P2, P3. cbn [N.lor].
+      unfold Rel. cbn [with_fs w_fs w_views w_handles].
+      apply Rel_upd_inode with (ino := ino)
+        (ino' := {| i_bytes := i_bytes ino; i_nlink := i_nlink ino; i_perm := perm; i_uid := i_uid ino; i_gid := i_gid ino |});
+        assumption.
+  Qed.
+
+  Lemma step_fchown fd uid gid : step_ok (Fchown fd uid gid).
+  Proof.
+    prologue fd Hkf o Efd f v Hf Hg Hon Hview Hname Hnode Hlt Hat Hr Hw Ha ino idn Eino Hperm Hget.
+    unfold lift. destruct (o_closed o) eqn:Ecl.
+    - destruct (closed_handle (w_fs w) v f Hname Hnode (good_view_win Hg)) as (_ & _ & _ & _ & _ & _ & _ & _ & _ & C & _). rewrite C.
+      erewrite on_fd_closed by eassumption. cbn. split; auto; same_world.
+    - erewrite on_fd_open by eassumption.
+      unfold f_chown. destruct (hd_name f) eqn:Enm; [congruence|]. rewrite Hnode, Hget. rewrite (good_view_win Hg).
+      destruct Hg as [Hadm Hos]. unfold check_permission. rewrite Hadm.
+      cbn [fst snd fproj_res set_meta node_meta]. split; [reflexivity|].
+      unfold Rel. cbn [with_fs w_fs w_views w_handles].
+      apply Rel_upd_inode with (ino := ino)
+        (ino' := {| i_bytes := i_bytes ino; i_nlink := i_nlink ino; i_perm := i_perm ino;
+                    i_uid := if Z.eqb uid (-1) then i_uid ino else uid;
+                    i_gid := if Z.eqb gid (-1) then i_gid ino else gid |}); assumption.
+  Qed.
+
+  Lemma step_fchdir fd : step_ok (Fchdir fd).
+  Proof.
+    prologue fd Hkf o Efd f v Hf Hg Hon Hview Hname Hnode Hlt Hat Hr Hw Ha ino idn Eino Hperm Hget.
+    destruct (o_closed o) eqn:Ecl.
+    - destruct (closed_handle (w_fs w) v f Hname Hnode (good_view_win Hg)) as (_ & _ & _ & _ & _ & _ & _ & _ & _ & _ & C & _). rewrite C.
+      erewrite on_fd_closed by eassumption. cbn. split; auto; same_world.
+    - erewrite on_fd_open by eassumption.
+      unfold f_chdir. destruct (hd_name f) eqn:Enm; [congruence|]. rewrite Hnode.
+      unfold node_is_dir. rewrite Hget. rewrite (good_view_win Hg).
+      cbn. split; auto; same_world.
+  Qed.
+
+  Lemma step_close fd : step_ok (Close fd).
+  Proof.
+    prologue fd Hkf o Efd f v Hf Hg Hon Hview Hname Hnode Hlt Hat Hr Hw Ha ino idn Eino Hperm Hget.
+    destruct (o_closed o) eqn:Ecl.
+    - destruct (closed_handle (w_fs w) v f Hname Hnode (good_view_win Hg)) as (_ & _ & _ & _ & _ & _ & _ & _ & _ & _ & _ & C & _). rewrite C.
+      erewrite on_fd_closed by eassumption. cbn. split; auto; same_world.
+    - erewrite on_fd_open by eassumption.
+      unfold f_close. rewrite Hnode. cbn [fst snd fproj_res]. split; [reflexivity|].
+      unfold Rel. cbn [with_handle w_fs w_views w_handles]. apply Rel_set_fd; [exact HR|].
+      unfold rel_fd. cbn [hd_view hd_name hd_node hd_at hd_mode o_ino o_off o_acc o_app o_closed].
+      repeat split; auto; congruence.
+  Qed.
+
+  (* ---- path-level Truncate and Open of an existing name ---------------------------------- *)
+  Lemma view0 : exists v, nth_error (w_views w) 0 = Some v /\ good_view v.
+  Proof. exact (R_view HR). Qed.
+
+  Lemma name_inode name i :
+    lookup_name st name = Some i ->
+    exists v ino idn, nth_error (w_views w) 0 = Some v /\ good_view v
+      /\ nth_error (st_inodes st) i = Some ino /\ (i_perm ino < 512)%N
+      /\ get (f_heap (w_fs w)) (ptr i) = Some (NFile (i_bytes ino) (i_nlink ino) idn (meta_of ino))
+      /\ (i < length (st_inodes st))%nat
+      /\ (forall slm, let r := search_node (w_fs w) v (fpath name) slm in
+             sr_err r = EFileExists /\ sr_child r = Some (ptr i) /\ pi_is_last (sr_pi r) = true).
+  Proof.
+    intros Hl. destruct view0 as (v & Hv & Hg).
+    destruct (R_names HR name Hv Hl) as [Hlt [Hres]].
+    destruct (nth_error (st_inodes st) i) as [ino|] eqn:E; [|apply nth_error_None in E; lia].
+    destruct (R_inodes HR _ E) as [Hp [idn Hget]].
+    exists v, ino, idn. split; [exact Hv|]. split; [exact Hg|]. split; [reflexivity|]. split; [exact Hp|].
+    split; [exact Hget|]. split; [exact Hlt|]. exact Hres.
+  Qed.
+
+  Lemma step_ptruncate name size :
+    in_scope st (PTruncate name size) = true -> step_ok (PTruncate name size).
+  Proof.
+    intros Hsc. unfold in_scope in Hsc. unfold step_ok. cbn [impl_call wstep fspec_step].
+    destruct (lookup_name st name) as [i|] eqn:El; [|discriminate].
+    destruct (name_inode name i El) as (v & ino & idn & Hv & Hg & Eino & Hperm & Hget & Hlt & Hres).
+    unfold on_view. rewrite Hv. unfold lift, truncate. rewrite (good_view_win Hg). cbn [negb]. rewrite andb_true_r.
+    destruct (Z.ltb_spec size 0) as [Hs|Hs].
+    - cbn. split; auto; same_world.
+    - destruct (Hres SlEval) as (He & Hc & _). rewrite He, Hc. cbn [is_file_exists negb]. rewrite Hget, Eino.
+      destruct (Z.ltb_spec size 0); [lia|].
+      cbn [fst snd fproj_res]. split; [reflexivity|]. rewrite truncate_data_resize by lia.
+      unfold Rel. cbn [with_fs w_fs w_views w_handles].
+      apply Rel_upd_inode with (ino := ino) (ino' := set_bytes ino (resize (i_bytes ino) (Z.to_nat size))); assumption.
+  Qed.
+
+  Lemma Rel_add_fd s vs hs st0 f o :
+    Rel' ptr s vs hs st0 -> rel_fd ptr (length (st_inodes st0)) f o ->
+    Rel' ptr s vs (hs ++ [f]) {| st_inodes := st_inodes st0; st_names := st_names st0; st_fds := st_fds st0 ++ [o] |}.
+  Proof.
+    intros [Hv Hi Hj Hn Hf] Hrel. constructor; cbn [st_inodes st_names st_fds]; try assumption.
+    apply Forall2_app; auto.
+  Qed.
+
+  Lemma fpath_nonempty name : fpath name <> [].
+  Proof. unfold fpath, DIRP. cbn. discriminate. Qed.
+
+  Lemma step_open name flag perm :
+    in_scope st (Open name flag perm) = true -> kf02 st (Open name flag perm) = None ->
+    step_ok (Open name flag perm).
+  Proof.
+    intros Hsc Hkf. unfold in_scope in Hsc.
+    destruct (lookup_name st name) as [i|] eqn:El; [|discriminate].
+    destruct (access_of flag) as [acc|] eqn:Eacc; [|discriminate].
+    apply N.ltb_lt in Hsc. destruct (open_mode_bits Hsc) as (Bx & Bt & Ba).
+    destruct (name_inode name i El) as (v & ino & idn & Hv & Hg & Eino & Hperm & Hget & Hlt & Hres).
+    unfold step_ok. unfold kf02 in Hkf. rewrite Eacc in Hkf.
+    cbn [impl_call wstep]. unfold on_view. rewrite Hv.
+    (* the implementation *)
+    unfold open_file. cbv zeta.
+    destruct (Hres (if has (to_open_mode flag) OpenCreateExcl then SlLstat else SlEval)) as (He & Hc & Hlast).
+    rewrite He, Hc, Hlast. cbn [is_file_exists is_not_exist negb andb orb]. rewrite Hget.
+    rewrite andb_false_r. cbn [is_not_exist].
+    destruct Hg as [Hadm Hos]. unfold check_permission. rewrite Hadm. cbn [negb].
+    rewrite Bx, Bt, Ba.
+    (* the specification *)
+    cbn [fspec_step] in *. rewrite Eacc, El in *.
+    destruct (fbit flag FO_CREATE && fbit flag FO_EXCL) eqn:Ex.
+    { cbn. split; auto; same_world. }
+    rewrite Eino in *.
+    assert (Hlen : length (w_handles w) = length (st_fds st)) by (apply (Forall2_len (R_fds HR))).
+    destruct (fbit flag FO_TRUNC) eqn:Et.
+    - (* O_TRUNC: the file is emptied on both sides *)
+      cbn [fst snd with_inode st_inodes st_names st_fds fproj_res] in *. rewrite Hlen. split; [reflexivity|].
+      unfold fd_get in Hkf. cbn [st_fds st_inodes] in Hkf.
+      rewrite nth_error_app2, Nat.sub_diag in Hkf by lia. cbn [nth_error o_ino] in Hkf.
+      rewrite nth_set_nth_eq in Hkf by auto. cbn [set_bytes i_bytes length Nat.eqb negb andb] in Hkf.
+      rewrite andb_false_r in Hkf.
+      destruct (caps_agree (to_open_mode flag) acc) eqn:Ecaps; [|discriminate].
+      unfold caps_agree in Ecaps. apply andb_true_iff in Ecaps. destruct Ecaps as [Cr Cw]. apply eqb_prop in Cr, Cw.
+      unfold Rel. cbn [w_fs w_views w_handles].
+      apply (Rel_add_fd _ _ _ (with_inode st i (set_bytes ino []))).
+      + apply Rel_upd_inode with (ino := ino) (ino' := set_bytes ino []); assumption.
+      + cbn [with_inode st_inodes]. rewrite set_nth_length.
+        unfold rel_fd, new_handle. cbn [hd_view hd_name hd_node hd_at hd_mode o_ino o_off o_acc o_app o_closed length Z.of_nat].
+        repeat split; auto. apply fpath_nonempty. now destruct (fbit flag FO_APPEND).
+    - cbn [fst snd st_inodes st_names st_fds fproj_res] in *. rewrite Hlen. split; [reflexivity|].
+      unfold fd_get in Hkf. cbn [st_fds st_inodes] in Hkf.
+      rewrite nth_error_app2, Nat.sub_diag in Hkf by lia. cbn [nth_error o_ino] in Hkf. rewrite Eino in Hkf.
+      destruct (caps_agree (to_open_mode flag) acc) eqn:Ecaps; [|discriminate]. cbn [negb] in Hkf.
+      unfold caps_agree in Ecaps. apply andb_true_iff in Ecaps. destruct Ecaps as [Cr Cw]. apply eqb_prop in Cr, Cw.
+      cbn [o_app] in Hkf.
+      unfold Rel. cbn [w_fs w_views w_handles].
+      apply (Rel_add_fd _ _ _ st).
+      + apply Rel_touch; assumption.
+      + unfold rel_fd, new_handle. cbn [hd_view hd_name hd_node hd_at hd_mode o_ino o_off o_acc o_app o_closed].
+        repeat split; auto. apply fpath_nonempty.
+        destruct (fbit flag FO_APPEND); [|reflexivity].
+        cbn [andb] in Hkf. destruct (Nat.eqb_spec (length (i_bytes ino)) 0) as [H0|H0]; [|discriminate].
+        rewrite H0. reflexivity.
+  Qed.
+End StepRefine.
